@@ -35,6 +35,7 @@ class _Ctx:
         self.trail = []       # literals of free decisions
         self.facts = []       # stub contracts / assumptions (part of the path condition)
         self.notes = []       # free-form per-path notes (recorders)
+        self.fresh = []       # fresh constants introduced by nondeterministic stubs on this path
 
 
 CTX = None
@@ -148,10 +149,11 @@ def _b(x):
 
 
 class Path:
-    __slots__ = ("pc", "facts", "result", "exc", "notes", "decisions")
+    __slots__ = ("pc", "facts", "result", "exc", "notes", "decisions", "fresh")
 
-    def __init__(self, pc, facts, result, exc, notes, decisions):
+    def __init__(self, pc, facts, result, exc, notes, decisions, fresh=()):
         self.pc, self.facts, self.result, self.exc, self.notes, self.decisions = pc, facts, result, exc, notes, decisions
+        self.fresh = list(fresh)
 
     def cond(self):
         """full path condition: decisions and stub contracts"""
@@ -178,7 +180,8 @@ def explore(fn, max_paths=4096, catch=(Exception,), timeout_ms=20000):
             except catch as e:  # noqa
                 exc = e
             pc = z3.And(*CTX.trail) if CTX.trail else z3.BoolVal(True)
-            out.append(Path(pc, list(CTX.facts), res, exc, list(CTX.notes), [d for d, f in CTX.prefix if not f]))
+            out.append(Path(pc, list(CTX.facts), res, exc, list(CTX.notes), [d for d, f in CTX.prefix if not f],
+                            list(CTX.fresh)))
             if len(out) > max_paths:
                 raise PathBudget("more than %d paths" % max_paths)
             p = CTX.prefix[:CTX.pos]
@@ -209,6 +212,24 @@ def check(*assertions, timeout_ms=60000, want_model=True):
     if r == "unknown":
         return r, s.reason_unknown()
     return r, None
+
+
+def covers(bound, paths, timeout_ms=120000):
+    """do the explored paths cover every input inside `bound`?  Values drawn by nondeterministic stubs are
+    existentially quantified (some admissible draw leads down some explored path).  returns 'unsat' when covered"""
+    disj = []
+    for p in paths:
+        c = p.cond()
+        if p.fresh:
+            c = z3.Exists(p.fresh, c)
+        disj.append(c)
+    r, m = check(bound, z3.Not(z3.Or(*disj)), timeout_ms=timeout_ms)
+    return r, m
+
+
+def note_fresh(v):
+    if CTX is not None:
+        CTX.fresh.append(v)
 
 
 def valid(claim, *hyps, timeout_ms=60000):
@@ -720,6 +741,13 @@ class ZInt:
             return ZInt(s.e + 1 - s.e % 2)
         raise Unsupported("ZInt | %r" % (o,))
     __ror__ = __or__
+
+    def __rlshift__(s, o):
+        """const << symbolic: forks over the shift amounts 0..64"""
+        for k in range(0, 65):
+            if s == k:
+                return o << k
+        raise Unsupported("shift amount outside 0..64")
 
     def __lt__(s, o):
         return SBool(s.e < ZInt.lift(o))
